@@ -104,7 +104,7 @@ func (bs *baseServer) Construct(opt any) {
 			if len(cookie.Path) > 0 {
 				cookie.HttpOnly = true
 			}
-			if cookie.SameSite == http.SameSiteDefaultMode {
+			if cookie.SameSite == 0 || cookie.SameSite == http.SameSiteDefaultMode {
 				cookie.SameSite = http.SameSiteLaxMode
 			}
 			bs.opts.SetCookie(cookie)
